@@ -33,19 +33,21 @@ pub struct Error {
     pub span: Span,
 }
 
-impl From<pest::error::Error<Rule>> for Error {
-    fn from(error: pest::error::Error<Rule>) -> Self {
-        match &error.variant {
-            pest::error::ErrorVariant::ParsingError { positives, .. } => Error {
-                message: format!("expected {positives:?}"),
-                src: error.line().to_string(),
-                span: error.location.into(),
-            },
-            pest::error::ErrorVariant::CustomError { message } => Error {
-                message: message.clone(),
-                src: error.line().to_string(),
-                span: error.location.into(),
-            },
+impl Error {
+    /// pest locates an error by *absolute* offsets into the input it parsed, so the
+    /// whole input is kept as the source text the label is rendered against.
+    fn from_pest(error: pest::error::Error<Rule>, input: &str) -> Self {
+        let message = match &error.variant {
+            pest::error::ErrorVariant::ParsingError { positives, .. } => {
+                format!("expected {positives:?}")
+            }
+            pest::error::ErrorVariant::CustomError { message } => message.clone(),
+        };
+
+        Error {
+            message,
+            src: input.to_string(),
+            span: error.location.into(),
         }
     }
 }
@@ -1513,7 +1515,8 @@ impl AstNode for ChainSpecificBlock {
 /// let program = parse_string("tx swap() {}").unwrap();
 /// ```
 pub fn parse_string(input: &str) -> Result<Program, Error> {
-    let pairs = Tx3Grammar::parse(Rule::program, input)?;
+    let pairs = Tx3Grammar::parse(Rule::program, input)
+        .map_err(|error| Error::from_pest(error, input))?;
     Program::parse(pairs.into_iter().next().unwrap())
 }
 
